@@ -146,7 +146,7 @@ func ParseContractFile(path string) (*ContractFile, error) {
 			}
 			switch kind {
 			case "requires", "ensures", "modifies", "invariant", "decreases", "local", "terminates", "inline",
-				"recovers", "nopanic", "fresh", "lemma", "assert", "pure", "split", "appends", "copies", "opaque", "panics", "trusted", "unroll", "calls_only", "lock", "ghost", "known":
+				"recovers", "nopanic", "fresh", "lemma", "assert", "pure", "split", "appends", "copies", "opaque", "panics", "trusted", "variant", "unroll", "calls_only", "lock", "ghost", "known":
 				cl.Kind = kind
 				cl.Text = rest
 				cur.Clauses = append(cur.Clauses, cl)
